@@ -437,3 +437,68 @@ Proof.
   apply filter_In in Hin. destruct Hin as [Hin _].
   apply in_map_iff in Hin. destruct Hin as (fe & <- & _). apply process_closed.
 Qed.
+
+Lemma sections_frames svc h frames :
+  flat_map frames_of (sections_of svc h frames) = flat_map (own_frames svc h) frames.
+Proof.
+  unfold sections_of. induction frames as [|fe r IH]; [reflexivity|].
+  cbn [map filter flat_map]. unfold own_frames at 1.
+  destruct (snd (process svc h true (snd fe) (fst fe))) as [|e evs]; cbn [flat_map].
+  - exact IH.
+  - rewrite IH. reflexivity.
+Qed.
+
+Lemma flat_map_concat {A B} (f : A -> list B) (ls : list (list A)) :
+  flat_map f (concat ls) = flat_map (flat_map f) ls.
+Proof.
+  induction ls as [|l ls IH]; [reflexivity|]. cbn [concat flat_map]. rewrite flat_map_app, IH. reflexivity.
+Qed.
+
+(** N goroutines, each processing its own list of requests, one shared framed output: for every
+    schedule the output consists of whole replies, each request's own reply, in some order. *)
+Theorem concurrent_process_no_interleaving svc h (reqs : list (list (bytes * bytes))) sched s :
+  wrun (winit (map (sections_of svc h) reqs)) sched = Some s -> all_done s = true ->
+  f_pending (w_out s) = [] /\
+  f_sent (w_out s) = flat_map frames_of (w_log s) /\
+  Permutation.Permutation (f_sent (w_out s)) (flat_map (own_frames svc h) (concat reqs)).
+Proof.
+  intros Hr Hd.
+  assert (Hc : Forall closed (concat (map (sections_of svc h) reqs))).
+  { apply Forall_forall. intros evs Hin. apply in_concat in Hin. destruct Hin as (l & Hl & Hin).
+    apply in_map_iff in Hl. destruct Hl as (fr & <- & _).
+    pose proof (sections_closed svc h fr) as Hf. rewrite Forall_forall in Hf. apply Hf. exact Hin. }
+  destruct (writers_no_interleaving _ _ _ Hc Hr Hd) as (H1 & H2 & _ & H4).
+  repeat split; try assumption.
+  eapply Permutation.Permutation_trans; [exact H4|].
+  rewrite !flat_map_concat.
+  assert (E : flat_map (flat_map frames_of) (map (sections_of svc h) reqs) =
+              flat_map (flat_map (own_frames svc h)) reqs).
+  { clear. induction reqs as [|r rs IH]; [reflexivity|].
+    cbn [map flat_map]. rewrite sections_frames, IH. reflexivity. }
+  rewrite E. apply Permutation.Permutation_refl.
+Qed.
+
+(** every output of Process, for any input at all, is at most one whole frame *)
+Theorem process_at_most_one_frame svc h etext frame s :
+  f_pending s = [] ->
+  exists fs, framed_run s (snd (process svc h true etext frame)) = mkfs [] (f_sent s ++ fs) /\
+             (length fs <= 1)%nat.
+Proof.
+  intros Hp. destruct (process_shape svc h etext frame) as [E|[f Hf]].
+  - rewrite E. exists []. cbn. rewrite app_nil_r. destruct s; cbn in *; subst. split; [reflexivity|lia].
+  - exists [f]. split; [apply (shape_one_frame _ _ Hf s Hp)|cbn; lia].
+Qed.
+
+(** F14 settled (after the repair): an unknown method is answered with UNKNOWN_METHOD whatever follows the
+    envelope, decodable as a struct or not *)
+Theorem unknown_method_always_answered svc h hdrs opid name mt seq junk :
+  header_size hdrs < 2147483648 -> zlen name < 2147483648 -> 0 <= mt < 256 -> in_range 4 seq ->
+  Headers.lookup opid_header (to_map hdrs) = Some opid ->
+  find_method svc name = None ->
+  expected_answer svc h (marshal hdrs ++ write_message_begin name mt seq ++ junk)
+  = Some (opid, AExc ex_unknown_method).
+Proof.
+  intros Hh Hn Hm Hs Ho Hf. unfold expected_answer.
+  rewrite stream_roundtrip by exact Hh. rewrite Ho.
+  rewrite read_message_begin_write by assumption. rewrite Hf. reflexivity.
+Qed.
